@@ -484,10 +484,11 @@ class wait_exponential(_WaitStrategyBase):
         self.min = _to_seconds(min)
 
     def __call__(self, attempts: int, *, seed: int | None = None) -> float:
-        return max(
-            max(0.0, self.min),
-            min(self.multiplier * self.exp_base**attempts, self.max),
-        )
+        try:
+            result = self.multiplier * self.exp_base**attempts
+        except OverflowError:
+            return self.max
+        return max(max(0.0, self.min), min(result, self.max))
 
 
 class wait_incrementing(_WaitStrategyBase):
@@ -566,7 +567,10 @@ class wait_exponential_jitter(_WaitStrategyBase):
         self.jitter = jitter
 
     def __call__(self, attempts: int, *, seed: int | None = None) -> float:
-        base = min(self.initial * self.exp_base**attempts, self.max)
+        try:
+            base = min(self.initial * self.exp_base**attempts, self.max)
+        except OverflowError:
+            return self.max
         rng = random.Random(seed) if seed is not None else random
         return min(base + rng.uniform(0, self.jitter), self.max)
 
@@ -598,10 +602,13 @@ class wait_random_exponential(_WaitStrategyBase):
 
     def __call__(self, attempts: int, *, seed: int | None = None) -> float:
         rng = random.Random(seed) if seed is not None else random
-        upper = max(
-            max(0.0, self.min),
-            min(self.multiplier * self.exp_base**attempts, self.max),
-        )
+        try:
+            upper = max(
+                max(0.0, self.min),
+                min(self.multiplier * self.exp_base**attempts, self.max),
+            )
+        except OverflowError:
+            upper = self.max
         return rng.uniform(self.min, upper)
 
 
